@@ -38,23 +38,23 @@ TRUSTED = [
 # corr = operation classes whose model/implementation disagreement concerns this property,
 # oracles = oracle tags evaluated on the implementation that decide this property
 PROPS = {
-    "C01": dict(suites=[("hist", 60, 4, 400, 16), ("scope", 4, 8, 5, 16)], corr=["search"], oracles=["C01"]),
+    "C01": dict(suites=[("hist", 60, 4, 400, 16), ("scope", 4, 8, 5, 16), ("cells", 1, 16, 2, 16)], corr=["search"], oracles=["C01"]),
     "C02": dict(suites=[("hist", 60, 4, 400, 16), ("scope", 4, 8, 5, 16)], corr=["search"], oracles=["C02"]),
-    "C03": dict(suites=[("hist", 60, 4, 400, 16), ("scope", 4, 8, 5, 16), ("cells", 1, 8, 2, 16), ("prio", 1, 2, 2, 8)], corr=["search"], oracles=["C03"]),
+    "C03": dict(suites=[("hist", 60, 4, 400, 16), ("scope", 4, 8, 5, 16), ("cells", 1, 16, 2, 16), ("prio", 1, 2, 2, 8)], corr=["search"], oracles=["C03"]),
     "C04": dict(suites=[("parse", 5, 4, 7, 16), ("dup", 1, 4, 2, 4), ("groups", 100, 4, 400, 16)], corr=["parse", "search", "display"], oracles=["C04", "C01", "C02", "C03"]),
     "C05": dict(suites=[("hist", 100, 4, 400, 16), ("orders", 1, 4, 2, 16)], corr=["search", "display"], oracles=["FUN"]),
     "C06": dict(suites=[("hist", 100, 4, 400, 16), ("scope", 4, 8, 5, 16)], corr=["search"], oracles=["C06"]),
     "C07": dict(suites=[("parse", 5, 4, 7, 16), ("junk", 100, 4, 400, 16), ("hist", 50, 4, 400, 16), ("family", 50, 4, 400, 16)], corr=[], oracles=["C07"]),
     "C08": dict(suites=[("hist", 100, 4, 400, 16), ("dup", 1, 4, 2, 8), ("pairs", 1, 4, 2, 16)], corr=["insert"], oracles=["C08"]),
-    "C09": dict(suites=[("hist", 100, 4, 400, 16), ("dup", 1, 4, 2, 8), ("family", 50, 4, 400, 16)], corr=["delete"], oracles=["C09"]),
+    "C09": dict(suites=[("hist", 100, 4, 400, 16), ("dup", 1, 4, 2, 8), ("family", 50, 4, 400, 16), ("pairs", 1, 4, 2, 16)], corr=["delete"], oracles=["C09"]),
     "C10": dict(suites=[("hist", 100, 4, 400, 16), ("dup", 1, 4, 2, 8)], corr=["insert", "delete", "search", "display"], oracles=["FUN", "C09"]),
     "C11": dict(suites=[("parse", 5, 4, 7, 16), ("parsefocus", 7, 4, 9, 16)], corr=["parse", "insert"], oracles=["C11"]),
     "C12": dict(suites=[("scope1", 5, 4, 6, 16), ("single", 300, 4, 1500, 16)], corr=["search"], oracles=["C12"]),
-    "C13": dict(suites=[("hist", 60, 4, 400, 16), ("fromstr", 1, 1, 4, 4), ("cells", 1, 8, 2, 16)], corr=["constraint", "insert", "search"], oracles=["C13", "C02", "C03"]),
+    "C13": dict(suites=[("hist", 60, 4, 400, 16), ("fromstr", 1, 1, 4, 4), ("cells", 1, 16, 2, 16)], corr=["constraint", "insert", "search"], oracles=["C13", "C02", "C03"]),
     "C14": dict(suites=[("parse", 5, 4, 7, 16), ("parsefocus", 7, 4, 9, 16)], corr=["parse", "render"], oracles=["C14"]),
     "C15": dict(suites=[("ascii", 100, 4, 400, 16)], corr=["display"], oracles=["C15"]),
     "C16": dict(suites=[("family", 100, 4, 400, 16), ("clonescope", 1, 4, 2, 16)], corr=["insert", "delete", "search", "display", "clone"], oracles=["FUN", "C09", "C08"]),
-    "C17": dict(suites=[("oci", 6, 4, 8, 16)], corr=["search"], oracles=["C17"]),
+    "C17": dict(suites=[("oci", 4, 8, 5, 16)], corr=["search"], oracles=["C17"]),
     "C18": dict(suites=[("threads", 30, 2, 200, 8)], corr=["search", "display"], oracles=["C18", "FUN"]),
     "C19": dict(suites=[("hist", 100, 4, 400, 16), ("pairs", 1, 4, 2, 16)], corr=["insert", "delete", "constraint"], oracles=["C19", "C08", "C09"]),
 }
@@ -86,16 +86,23 @@ class Lock:
 
 
 def build_harness(log):
-    """returns (ok, hooks_available, output)"""
+    """returns (ok, features dict, output). Feature fallbacks: the hook (needs --cfg wayfind_verif and the names the
+    hook touches) and the compile-time Send/Sync assertion are each dropped only if the build fails with them."""
     with Lock(".cargo.lock"):
-        rc, out = sh(["cargo", "build", "--offline"], cwd=HARNESS, env={"RUSTFLAGS": "--cfg wayfind_verif"})
-        if rc == 0:
-            return True, True, out
-        log.append("hooked build failed; retrying without the hook")
-        rc2, out2 = sh(["cargo", "build", "--offline", "--no-default-features"], cwd=HARNESS)
-        if rc2 == 0:
-            return True, False, out
-        return False, False, out + "\n" + out2
+        attempts = [(["hook", "sendsync"], True), (["hook"], True), (["sendsync"], False), ([], False)]
+        first_out = None
+        for feats, cfg in attempts:
+            cmd = ["cargo", "build", "--offline", "--no-default-features"]
+            if feats:
+                cmd += ["--features", ",".join(feats)]
+            rc, out = sh(cmd, cwd=HARNESS, env={"RUSTFLAGS": "--cfg wayfind_verif"} if cfg else None)
+            if first_out is None:
+                first_out = out
+            if rc == 0:
+                if feats != ["hook", "sendsync"]:
+                    log.append("harness built with features " + str(feats))
+                return True, dict(hook="hook" in feats, sendsync="sendsync" in feats, first_output=first_out), out
+        return False, dict(hook=False, sendsync=False, first_output=first_out), first_out
 
 
 def theorem_names(pid):
@@ -199,7 +206,10 @@ def judge_ops(d, ops):
     if rc != 0:
         return dict(dir=d, error=f"harness run died rc={rc} (abort/stack overflow?): {out[-300:]}")
     with open(verdict, "w") as vf:
-        p = subprocess.run([WFMODEL, "judge", full, impl], stdout=vf, stderr=subprocess.PIPE, text=True)
+        try:
+            p = subprocess.run([WFMODEL, "judge", full, impl], stdout=vf, stderr=subprocess.PIPE, text=True, timeout=3600)
+        except subprocess.TimeoutExpired:
+            return dict(dir=d, error="model driver timed out (machinery)")
     if p.returncode != 0:
         return dict(dir=d, error=f"model driver died rc={p.returncode}: {p.stderr[-300:]}")
     D, O, S = [], [], {}
@@ -338,7 +348,16 @@ def main():
         json.dump(obj, open(p, "w"), indent=1, ensure_ascii=False)
         return p
 
-    ok, hooks, out = build_harness(log)
+    ok, feats, out = build_harness(log)
+    hooks = feats["hook"]
+    if ok and pid == "C18" and not feats["sendsync"]:
+        p = write_replay("sendsync", dict(property=pid, kind="failing-input", oracle="C18: Router<T> / Match<T> are no longer Send + Sync for every T: Send + Sync",
+                                         detail="the harness' compile-time assertion `is_send_sync::<wayfind::Router<T>>()` is rejected by rustc; the compiler output is the witness",
+                                         compiler_output=feats["first_output"][-4000:]))
+        print(f"VIOLATION property={pid} replay={p}")
+        write_evidence(pid, tier, seed, t0, dict(obligations=1, discharged=0, checker_cmd="cargo build --features sendsync", trusted_base=TRUSTED,
+                                                 evaluations=1, distinct_nontrivial=0, explanation="Send/Sync assertion does not compile"), 1)
+        return 1
     if not ok:
         p = write_replay("build", dict(property=pid, kind="no-failing-input-found", theorem_or_stream="harness build against /repo",
                                       detail="the crate (or its public API used by the harness) no longer builds", compiler_output=out[-4000:]))
